@@ -430,6 +430,8 @@ func valueSweeps() {
 	sweep("meta-type", b, e)
 	b, e = smfgen.LongSweep()
 	sweep("long-payload", b, e)
+	b, e = smfgen.ManyEvents()
+	sweep("many-events", b, e)
 }
 
 // twoReaders: two files decoded by two threads that are switched inside their
